@@ -1005,7 +1005,12 @@ func analysePackage(repo, dir, typeName string) (*pkgResult, error) {
 				body = pe.body
 				b.res.nodes[start[0]].pos = b.pos(pe.body)
 			}
-			b.finishFn(body, start, fc) // whatever leaves the function ends the thread: dangling frontier = no successor
+			// whatever leaves the function ends the thread: every exit (fall-through end and each return, after its
+			// deferred calls) leads to ONE exit node without successor, so that an early return taken from a node that
+			// also continues elsewhere is a path of its own (its lock set must be empty at the exit)
+			if out := b.finishFn(body, start, fc); len(out) > 0 {
+				b.emit("ISkip", dedup(out), nil)
+			}
 			res.Entries = append(res.Entries, pe.name)
 			res.entryIDs = append(res.entryIDs, start[0])
 		}
